@@ -203,8 +203,11 @@ let () =
               (* a listing that differs from the own names is the known isolation finding only when the
                  other configuration's prefix and ours are prefixes of one another (Coq: prefix_related) *)
               let others = unlist (List.nth args 5) in
-              let tag () = if impl <> "P" && List.exists (fun q -> q <> c.prefix && prefix_related c.prefix q) others
-                           then "isolation-prefix-of-prefix" else "unclassified" in
+              let own = unlist (List.nth args 4) in
+              let tag () =
+                if impl <> "P" && List.exists (fun n -> not (rules_of TFileName n)) own then "unchecked-name"
+                else if impl <> "P" && List.exists (fun q -> q <> c.prefix && prefix_related c.prefix q) others
+                then "isolation-prefix-of-prefix" else "unclassified" in
               check ~tag "cfg" (Some (collect nc_extract_name_from_file)) (Some (List.nth args 4))
             | "note" -> ()
             | _ -> failwith ("unknown fun op " ^ name));
